@@ -555,3 +555,16 @@ def l11(ctx: Ctx):
         except AnalysisError as e:
             ok, why = False, str(e.reason if hasattr(e, "reason") else e)
         ctx.ob(name, ok, "" if ok else f"procedure {name}: {why} - the emitted bundle contains a procedure BASIC09 cannot pack", file=LIB_REL, line=p.line)
+
+
+# ---------------------------------------------------------------------------
+# L12 LIB-QUOTES
+
+
+@rule("L12", "LIB-QUOTES: every line of the bundled library has balanced double quotes - the bank's patterns decide `inside a string literal` by counting the quotes that follow a match up to the end of the text, comments included", ["C13"], floor=50)
+def l12(ctx: Ctx):
+    L = b09lib(ctx)
+    for name, p in sorted(L.procs.items()):
+        bad = [(ln, raw) for ln, raw in p.lines if raw.count('"') % 2 == 1]
+        ok = not bad
+        ctx.ob(name, ok, "" if ok else f"procedure {name}, line {bad[0][0]}: `{bad[0][1].strip()[:70]}` has an odd number of double quotes: every RUN and every `STRING<<>>` placeholder in front of it (in the whole bundle) is then taken to be inside a string literal - placeholders stay unreplaced, dependencies are missed", file=LIB_REL, line=bad[0][0] if bad else p.line)
